@@ -5,7 +5,7 @@ Rule == IOEnv.OROWANRULE
 Eval(c) == IF c.kind = "combine"
              THEN [prec |-> PrecStrength(c.weak, c.strong, c.orowan, c.M, Rule),
                    total |-> Total(c.sigma0, c.ss, PrecStrength(c.weak, c.strong, c.orowan, c.M, Rule))]
-             ELSE [cg |-> [i \in 1..Len(c.g) |-> Constrain(c.g[i], c.z)]]
+             ELSE [cg |-> [i \in 1..Len(c.g) |-> Constrain(c.g[i], c.k * c.z)]]      \* drag term = alpha * M * gbe * z, the same prefactor k as the curvature-driven rate
 ASSUME JsonSerialize(IOEnv.OUTF, [i \in 1..Len(Cases) |-> Eval(Cases[i])])
 VARIABLE x
 Init == x = 0
